@@ -1,6 +1,6 @@
 (* C13 — Failure marking and stop-on-failed follow the configured failure strings.
    Property theorems only; proofs are in theories/GenericLemmas.v. *)
-From Scrapli Require Import Bytes Generic GenericLemmas DecideLang GeneratedSkel DecideLoops.
+From Scrapli Require Import Bytes Generic GenericLemmas DecideLang GeneratedSkel DecideLemmas GenericSrc.
 
 (* A response is marked failed exactly when its output contains one of the failure strings in
    force (hypothesis: the list holds no empty string — an empty string is contained in every
@@ -129,3 +129,14 @@ Print Assumptions C13_send_commands_is_source.
 Print Assumptions C13_send_loop_count.
 Print Assumptions C13_send_command_fws_is_source.
 Print Assumptions C13_send_config_is_source.
+
+(* every test that the translated functions of this property make is one the environments of their
+   ties were written for: a test that is new in the source breaks this (an unknown equality would
+   otherwise evaluate to false without notice) *)
+From Scrapli Require Import DecideLang GeneratedSkel GenericSrc.
+Theorem C13_source_tests_known :
+  tests_known response_record_code response_record_known = true /\
+  tests_known append_response_code append_response_known = true /\
+  tests_known send_command_code send_command_known = true.
+Proof. split; [exact response_record_tests_known | split; [exact append_response_tests_known | exact send_command_tests_known]]. Qed.
+Print Assumptions C13_source_tests_known.
